@@ -410,6 +410,10 @@ func (g *c18Gen) event() c18Event {
 				continue
 			}
 			delete(g.gcAlive, name)
+			// an object created again under the name starts at generation 1 again
+			if r.Chance(2, 3) {
+				g.gcGen[name] = 0
+			}
 			return c18Event{kind: "delgc", name: name}
 		case x < 94:
 			return c18Event{kind: "upcrd", name: g.crds[r.Intn(len(g.crds))], cls: g.versions[r.Intn(len(g.versions))]}
@@ -544,6 +548,9 @@ func TestVerifC18(t *testing.T) {
 		{{up("default", "gw", "nginx")}},
 		// delete + re-create in one batch keeps the Deployment; in two batches replaces it
 		{{gc("nginx", 1), up("a", "gw", "nginx")}, {del("a", "gw"), up("a", "gw", "nginx")}, {del("a", "gw")}, {up("a", "gw", "nginx")}},
+		// the configured class deleted and created again (a new object: generation 1, no status) in one batch, and once more
+		{{gc("nginx", 1), up("a", "gw", "nginx")}, {{kind: "delgc", name: "nginx"}, gc("nginx", 1)}, {up("b", "gw", "nginx")},
+			{{kind: "delgc", name: "nginx"}, gc("nginx", 1), del("a", "gw")}},
 		// same name in two namespaces, other class, conflict class, unsupported / best-effort CRD versions
 		{{gc("nginx", 1), gc("other", 1), crd(sup)}, {up("a", "gw", "nginx"), up("default", "gw", "nginx"), up("ns1", "gw", "other")},
 			{crd("v99.0.0")}, {crd("v1.99.0")}, {gc("nginx", 2)}, {{kind: "delcrd", name: c18RelevantCRDs[0]}}},
